@@ -504,3 +504,16 @@ Definition theorem_instance (uk : universe * dc_case) : bool :=
                       end))
      | Err _ => false
      end.
+
+(* what the model answers for the case: decode (encode o) is the promised object *)
+Definition model_roundtrip (uk : universe * dc_case) : bool :=
+  let '(u, k) := uk in
+  match model_encode u k with
+  | Ok j => gres_eqb value_eqb (model_decode u k j)
+              (Ok (match dc_factory k with
+                   | FDict => dc_value k
+                   | FFilterNone => fill_defaults (dc_gen k) u (S (S (vdepth (dc_value k)))) (dc_value k)
+                   end))
+  | Err _ => false
+  end.
+
